@@ -77,7 +77,8 @@ class CmpProp(Prop):
             # variants stay ordered by declaration position, fields are compared and hashed as without them
             discrs = None
             if is_enum and rng.random() < 0.25:
-                discrs = [str(10 * (i + 1)) if rng.random() < 0.6 else None for i in range(nvar)]
+                # decreasing values: declaration order and discriminant order disagree
+                discrs = [str(10 * (nvar - i)) if rng.random() < 0.6 else None for i in range(nvar)]
                 if not any(discrs):
                     discrs[rng.randrange(nvar)] = '7'
             req = G.make_item(name, variants, is_enum, traits, mode, discrs=discrs,
@@ -101,6 +102,44 @@ class CmpProp(Prop):
                             feats.add('sel-%s-by-%s' % (t, s[1]))
             out.append((req, dict(features=tuple(sorted(feats)), nontrivial=nontriv or len(variants) > 1,
                                   traits=traits, variants=variants, enum=is_enum, name=name)))
+        # directed: field-less enums whose explicit discriminants disagree with the declaration order (variants compare by
+        # position, as with the standard derive), with and without `repr`
+        for k, traits in enumerate(sets):
+            for dk, discrs in enumerate((['3', '2', '1'], ['5', None, '1'], [None, '-2', None], ['1', '0'])):
+                variants = [(False, []) for _ in discrs]
+                mode = 'attr' if (k + dk) % 2 else 'derive'
+                req = G.make_item('E', variants, True, traits, mode, discrs=discrs,
+                                  item_attrs=[sx.a_other('repr ( i8 )')] if dk % 2 else ())
+                out.append((req, dict(features=('unit-only-discriminants', mode, 'traits:' + '+'.join(traits), ','.join(d or '_' for d in discrs)),
+                                      nontrivial=True, traits=traits, variants=variants, enum=True, name='E')))
+        if self.directed:
+            out.extend(self.wide_cases(sets, pools))
+        return out
+
+    directed = True
+
+    def wide_cases(self, sets, pools):
+        """directed: structs and variants with MANY fields (11, 17, 33): every field takes part, in declaration order, however
+        many there are; observed on the all-zero value and on every single-field perturbation of it (two values per field)"""
+        out = []
+        for k, traits in enumerate(sets):
+            pool = pools.get(tuple(traits)) or [{}]
+            for shape in ((11,), (17,), (33,), (12, 17)):
+                is_enum = len(shape) > 1
+                variants, values = [], []
+                for vi, nf in enumerate(shape):
+                    fl = [('u8', pool[(i * 5 + k) % len(pool)] if i % 4 == 1 else {}) for i in range(nf)]
+                    variants.append(((k + vi) % 2 == 0, fl))
+                    values.append((vi, (0,) * nf))
+                    for i in range(nf):
+                        for x in (1, 2):
+                            values.append((vi, tuple(x if j == i else 0 for j in range(nf))))
+                mode = 'attr' if (k + len(shape)) % 2 else 'derive'
+                name = 'E' if is_enum else 'X'
+                req = G.make_item(name, variants, is_enum, traits, mode)
+                out.append((req, dict(features=('wide', mode, 'traits:' + '+'.join(traits), 'fields' + '+'.join(map(str, shape))),
+                                      nontrivial=True, traits=traits, variants=variants, enum=is_enum, name=name,
+                                      fixed_values=values)))
         return out
 
     # key dialects: the same grammar with the key expression of one attribute kind replaced by the identity, written
@@ -133,10 +172,12 @@ class CmpProp(Prop):
                 G.KEY = dict(saved, **over)
                 real_n = self.n
                 self.n = lambda tier: n_extra
+                self.directed = False
                 try:
                     extra = self.build_cases(tier, rng)
                 finally:
                     self.n = real_n
+                    self.directed = True
                 for req, m in extra:
                     m['dialect'] = name
                     m['features'] = tuple(m['features']) + ('dialect:' + name,)
@@ -157,9 +198,10 @@ class CmpProp(Prop):
             head = ('#[::derive_ex::derive_ex(%s)]\n' % r.attr) if r.mode == 'A' else '#[derive(::derive_ex::Ex)]\n'
             nf = max([len(fl) for _, fl in m['variants']] + [0])
             dom = [0, 1, 2, 3] if nf <= 2 else [0, 1, 3]
-            values = G.values_of(m['variants'], dom, [0, 1, 9])
+            values = G.values_of(m['variants'], dom, [0, 1, 9]) if 'fixed_values' not in m else []
             if len(values) > 70:
                 values = values[::(len(values) // 70 + 1)]
+            values = m.get('fixed_values') or values
             m['values'] = values
             mods.append(l2.Module(r.cid, G.module_source(r.cid, head, r.item, m['name'], m['variants'], m['enum'],
                                                          m['traits'], values), r))
